@@ -122,13 +122,17 @@ U16(n) == <<n \div 256, n % 256>>
 
 \* RFC 1071: ones-complement sum of the big-endian 16-bit words of s (an odd
 \* trailing octet is padded with zero on the right), folded to 16 bits.
-RECURSIVE SumW(_, _)
-SumW(s, i) == IF i > Len(s) THEN 0
-              ELSE s[i] * 256 + (IF i + 1 <= Len(s) THEN s[i + 1] ELSE 0) + SumW(s, i + 2)
+\* (Summed by halving, so that TLC's evaluation depth stays logarithmic.)
+Word(s, k) == s[2 * k - 1] * 256 + (IF 2 * k <= Len(s) THEN s[2 * k] ELSE 0)
+RECURSIVE SumW(_, _, _)
+SumW(s, lo, hi) == IF lo > hi THEN 0
+                   ELSE IF lo = hi THEN Word(s, lo)
+                   ELSE LET mid == (lo + hi) \div 2 IN SumW(s, lo, mid) + SumW(s, mid + 1, hi)
+Sum16(s) == SumW(s, 1, (Len(s) + 1) \div 2)
 Fold16(x) == LET a == (x % 65536) + (x \div 65536) IN (a % 65536) + (a \div 65536)
-Csum(s) == 65535 - Fold16(SumW(s, 1))
+Csum(s) == 65535 - Fold16(Sum16(s))
 \* a block that contains its own checksum sums to 0xffff
-Verifies(s) == Fold16(SumW(s, 1)) = 65535
+Verifies(s) == Fold16(Sum16(s)) = 65535
 
 ProtoNum(f) == CASE f.proto = "tcp" -> 6 [] f.proto = "udp" -> 17
                  [] f.proto = "icmp" -> 1 [] OTHER -> 253
